@@ -73,6 +73,74 @@ def reseal(b):
     return b[:-4] + crcref.crc32c_fast(b[:-4]).to_bytes(4, 'little')
 
 
+def raw_boc(blobs, root_idx, size, has_crc=True):
+    """generic-magic bag assembled from ready-made cell blobs (no index), conforming in everything except possibly the references inside the blobs"""
+    data = b''.join(blobs)
+    off = rc.minbytes(len(data))
+    out = bytearray(rc.MAGIC_GENERIC)
+    out.append((64 if has_crc else 0) | size)
+    out.append(off)
+    out += len(blobs).to_bytes(size, 'big') + len(root_idx).to_bytes(size, 'big') + (0).to_bytes(size, 'big') + len(data).to_bytes(off, 'big')
+    for r in root_idx:
+        out += r.to_bytes(size, 'big')
+    out += data
+    if has_crc:
+        out += crcref.crc32c_fast(bytes(out)).to_bytes(4, 'little')
+    return bytes(out)
+
+
+MUST_REJECT_REASONS = ('not strictly forward', 'truncated', 'trailing bytes', 'crc mismatch', 'root index', 'cell data length', 'length with crc')
+
+
+def differential(R, B, data, key, what, W):
+    """judge a derived encoding by the strict reference decoder: conforming -> the library must return the denoted roots; rejected for one of the
+    reasons the property names (references that are not forward / dangling, truncation, extension, CRC) -> the library must raise; anything else is not judged"""
+    try:
+        d = rc.decode_boc(data, strict_distinct=False)
+        verdict = 'accept'
+    except rc.RefError as e:
+        verdict = 'reject' if any(m in str(e) for m in MUST_REJECT_REASONS) else 'unjudged'
+    R.count(f'shift:{key}:{verdict}')
+    if verdict == 'unjudged':
+        return
+    if verdict == 'reject':
+        must_reject(R, B, data, key, what, W)
+        return
+    st, got = mon.call(B.Cell.from_boc, data)
+    R.counters['oracle_evaluations'] += 1
+    if st == 'exc':
+        R.violation(f'valid-derived-encoding-rejected-{key}', f'{what}: conforming, but rejected with {got!r}', dict(W, derived=data if len(data) < 2000 else None))
+    else:
+        R.check([g.hash for g in got] == [x.hash for x in d['roots']], f'derived-encoding-roots-differ-{key}', f'{what}: parsed roots differ from the denoted ones',
+                dict(W, derived=data if len(data) < 2000 else None))
+
+
+def shifted_bags(R, B, rng, roots, W):
+    """bags that share their cell bytes with a bag parsed just before, at shifted positions: the same reference bytes then denote other cells
+    (a reference to the next cell becomes a self-reference, the last one dangles).  Nothing learnt from the earlier parse may be reused."""
+    order = rc.topo_order(roots)
+    n = len(order)
+    size = rc.minbytes(n + 1)
+    idx_of = {c.hash: i for i, c in enumerate(order)}
+    blobs = [c.serialize(idx_of, size) for c in order]
+    valid = raw_boc(blobs, [idx_of[r.hash] for r in roots], size)
+    for variant in ('cold', 'after-valid-parse'):
+        if variant == 'after-valid-parse':
+            st, got = mon.call(B.Cell.from_boc, valid)
+            R.check(st == 'ok' and [g.hash for g in got] == [r.hash for r in roots], 'raw-bag-rejected', 'hand-assembled conforming bag not parsed to its roots', dict(W, boc=valid))
+        for tgt in sorted({1, n} | ({rng.randint(1, n)} if n > 1 else set())):
+            newroot = bytes([1, 2, 0xA5]) + tgt.to_bytes(size, 'big')                 # ordinary cell, 8 data bits, one reference
+            differential(R, B, raw_boc([newroot] + blobs, [0], size), f'prepended-root-{variant}',
+                         f'a new root (reference -> cell {tgt}) prepended to the cell bytes of a valid bag ({variant}); every old reference now denotes the cell before', W)
+        if n > 1:
+            differential(R, B, raw_boc(blobs[1:], [0], size), f'dropped-first-cell-{variant}',
+                         f'first cell removed from the cell bytes of a valid bag ({variant}); every reference now denotes the cell after', W)
+            differential(R, B, raw_boc(blobs[1:] + blobs[:1], [0], size), f'rotated-cells-{variant}', f'cell bytes of a valid bag rotated by one ({variant})', W)
+        differential(R, B, raw_boc(blobs + blobs, [idx_of[r.hash] for r in roots], size), f'cells-repeated-{variant}',
+                     f'cell bytes of a valid bag repeated twice under one header ({variant})', W)
+    R.count('shifted_bases')
+
+
 def negative(R, B, rng, roots, W, full=True):
     order = rc.topo_order(roots)
     n = len(order)
@@ -116,6 +184,7 @@ def negative(R, B, rng, roots, W, full=True):
     h[rootpos:rootpos + size] = n.to_bytes(size, 'big')
     must_reject(R, B, reseal(bytes(h)), 'root-dangling', 'root index = cells count', W)
     R.count('negative_bases')
+    shifted_bags(R, B, rng, roots, W)
 
 
 def run(R):
@@ -126,6 +195,7 @@ def run(R):
               'flags, CRC, stored hashes for masks 0/1/3/7, 1..4 roots at arbitrary positions incl. repeats, random linear extension, '
               '3 magics); negative: for bases <= 320 bytes EVERY single-bit flip of the CRC-protected form, EVERY truncation, extensions '
               'by 1..4 bytes, every reference slot rewritten to self/each earlier index/cells_num/max with CRC resealed; '
+              'bags re-using the cell bytes of a bag parsed just before at shifted positions (new root prepended, first cell dropped, rotated, repeated), judged by the strict decoder; '
               'distinct = distinct (roots, encoding bytes); non-trivial = all')
     R.assumptions = ['"rejected" = any Exception subclass propagates out of Cell.from_boc (the library has no error taxonomy)',
                      'stored hashes are only generated for level masks 0,1,3,7 (TON writer/reader disagree on gapped masks)']
@@ -155,6 +225,8 @@ def run(R):
     R.floor('neg:truncated-crc', 100)
     R.floor('neg:ref-backward', 3)
     R.floor('neg:ref-self', 3)
+    R.floor('shifted_bases', 5)
+    R.floor('shift:prepended-root-after-valid-parse:reject', 3)
     for v in ('generic', 'idx', 'idx_crc'):
         pass
     R.floor('freedom:magic', 3, 'set')
